@@ -10,8 +10,11 @@ import (
 	"fmt"
 	"os"
 	"regexp"
+	"runtime/debug"
 	"sort"
 	"strings"
+
+	"github.com/dgraph-io/badger/v4/verifhook"
 
 	"github.com/oasisprotocol/oasis-core/go/common"
 	"github.com/oasisprotocol/oasis-core/go/common/crypto/hash"
@@ -23,6 +26,17 @@ import (
 )
 
 var Ctx = context.Background()
+
+func init() {
+	// Memory-only databases are created by the thousand; the shipped 64 MiB
+	// memtable arena makes each open cost tens of milliseconds.  Only the
+	// flush frequency depends on the size (see third_party/badger/verifhook).
+	// Thousands of short-lived databases: trade memory for fewer collections.
+	debug.SetGCPercent(800)
+	if os.Getenv("VERIF_BADGER_DEFAULT_MEMTABLE") == "" {
+		verifhook.MemTableSize.Store(8 << 20)
+	}
+}
 
 // Keys is the adversarial alphabet: empty key, keys that are proper prefixes
 // of others, keys splitting an edge inside a byte, first-bit-different keys.
@@ -201,7 +215,7 @@ var Backends = []string{"badger", "pathbadger"}
 
 // OpenDB opens a node database: memory-only if dir is empty.
 func OpenDB(backend, dir string) (dbapi.NodeDB, error) {
-	cfg := &dbapi.Config{Namespace: Namespace, MaxCacheSize: 16 * 1024 * 1024, NoFsync: true}
+	cfg := &dbapi.Config{Namespace: Namespace, MaxCacheSize: 1024 * 1024, NoFsync: true}
 	if dir == "" {
 		cfg.MemoryOnly = true
 	} else {
